@@ -59,6 +59,14 @@ var specC03WellFormed = Register(&Spec[WellFormed]{
 		if got != want {
 			return errf("Parse(%q) = %+v, want %+v", w.Text, got, want)
 		}
+		// the helpers that speak about the parts: a version with a revision is not native, one
+		// that parsed is not empty (and the zero value is)
+		if got.IsNative() != (w.Revision == "") {
+			return errf("Parse(%q) = %+v: IsNative() = %v", w.Text, got, got.IsNative())
+		}
+		if got.Empty() || !(&version.Version{}).Empty() {
+			return errf("Parse(%q) = %+v: Empty() = %v (zero value: %v)", w.Text, got, got.Empty(), (&version.Version{}).Empty())
+		}
 		var viaControl version.Version
 		if err := viaControl.UnmarshalControl(w.Text); err != nil || viaControl != want {
 			return errf("UnmarshalControl(%q) = %+v, %v; want %+v", w.Text, viaControl, err, want)
